@@ -109,12 +109,39 @@ def dw_op_addr(obj, data):
 
 @ispec("*>[ {f1} enc(8) ~data(*) ]", mnemonic="DW_OP_GNU_encoded_addr")
 def dw_op_gnu(obj, enc, data):
+    # the operand is a DW_EH_PE_* encoding byte followed by the address in
+    # that encoding. The low nibble gives the value format; the high nibble
+    # (pcrel, datarel, indirect ...) tells how the unwinder relocates the
+    # value and is kept in misc["enc"].
     sz = env.op_ptr.size
-    if data.size < sz:
+    fmt = enc & 0x0F
+    if enc == 0xFF:
+        # DW_EH_PE_omit: no value
         raise InstructionError(obj)
-    result = XXX
-    obj.operands = [env.cst(XXX.int(), sz)]
-    obj.bytes += pack(result)
+    if fmt in (0x01, 0x09):
+        # uleb128 / sleb128
+        data = pack(data)
+        result, blen = _leb128(obj, data, +1 if fmt == 0x01 else -1)
+        raw = data[:blen]
+    else:
+        # absptr, udata2/4/8, sdata2/4/8
+        vsz, sign = {
+            0x00: (sz, +1),
+            0x02: (16, +1),
+            0x03: (32, +1),
+            0x04: (64, +1),
+            0x0A: (16, -1),
+            0x0B: (32, -1),
+            0x0C: (64, -1),
+        }.get(fmt, (None, None))
+        if vsz is None or data.size < vsz:
+            raise InstructionError(obj)
+        value = data[0:vsz]
+        result = value.int(sign)
+        raw = pack(value)
+    obj.misc["enc"] = enc
+    obj.operands = [env.cst(result, sz)]
+    obj.bytes += raw
     obj.type = type_data_processing
 
 
